@@ -374,8 +374,9 @@ def run(tier, seed, replay=None):
         where = ("inside class H" if field(c, "H") == "in-H" else
                  "that is outside class H only for its `#t = e?` / `#t = e*` (known class C02-node-tag: which node gets the label), in more than the labels - "
                  "the results differ with every label erased")
-        res.violation("the derive-generated parser and pest_vm disagree on a grammar %s: grammar `%s`, rule %s, input (hex) %s: generated `%s` vs VM `%s` "
-                      "(%d disagreeing cases in this run)" % (where, gtrim[:400], field(c, "r"), field(c, "in"), worst["impl"][:200], worst["expected"][:200],
+        vmname = "VM built with Vm::new_with_listener (listener returns false; Vm::new answers differently)" if field(c, "vm") == "new_with_listener" else "VM"
+        res.violation("the derive-generated parser and pest_vm disagree on a grammar %s: grammar `%s`, rule %s, input (hex) %s: generated `%s` vs %s `%s` "
+                      "(%d disagreeing cases in this run)" % (where, gtrim[:400], field(c, "r"), field(c, "in"), worst["impl"][:200], vmname, worst["expected"][:200],
                                                             stats.get("spec_in_H", len(spec_m))),
                       {"theorem_or_correspondence": "C02 oracle: generated parser vs pest_vm (real code, compiled batch)", "case": c,
                        "grammar": gtrim.replace("\\n", "\n"), "rule": field(c, "r"), "input": field(c, "in"),
@@ -440,6 +441,15 @@ def run(tier, seed, replay=None):
                 "counted repetitions, choice, sequence, both predicates, PUSH, literals, inside repetitions, in non-atomic rules with silent and with "
                 "token-producing WHITESPACE / COMMENT, entered from atomic rules; inputs also with a trivia token after every letter; grammars with "
                 "`#t = e?` / `#t = e*` - known class C02-node-tag - are compared with every label erased: what remains different is a violation) "
+"; every case of every family runs BOTH public constructors of the VM (Vm::new and Vm::new_with_listener with a listener that returns false): they must agree "
+                "with each other and with the generated parser; the restore-on-error differential also has every stack-changing operand as the whole body "
+                "of +, {1,}, {1,3}, {2} in atomic, compound-atomic and normal rules below two or three unequal entries, followed by readers of the whole "
+                "stack (both feature sets); the Unicode-property differential (one rule per property name of pest::unicode - binary properties, general "
+                "categories, scripts - on the code points at and around every boundary of the property's own table over all planes and on every 0x1d3-th "
+                "code point, alone and after `x`; only differences go to the runner); the case-insensitive differential (`^\"..\"` literals with cased "
+                "letters outside ASCII - Latin-1, Cyrillic, Greek, dotted I, sharp s, a titlecase digraph, the Kelvin sign - bare, repeated, under predicates, "
+                "pushed, in normal / atomic / compound-atomic rules, on every literal as written, lower-cased, upper-cased, ASCII-folded either way, "
+                "case-swapped, alone, followed by x and in pairs) "
                 "- one evaluation = one (grammar, rule, input), non-trivial = a parse producing tokens or failing past position 0" % (maxlen, maxlen_x),
         "exhaustive": True,
         "exhaustive_bound": "inputs: all strings over a 4-letter alphabet up to length %d per grammar and rule; grammars: sampled (the theorem is unbounded)" % maxlen,
